@@ -46,7 +46,12 @@ type C16Case struct {
 	MaxDoc   int     `json:"max_doc"` // Rules.MaxDocumentSizeBytes (small, so that cumulative accounting shows)
 	MaxDepth int     `json:"max_depth"`
 	Ops      []C16Op `json:"ops"`
+	// Recursion (marshalers): Iterator.RecursionSupport is on, so shared and cyclic values are written with
+	// markers and references - whose numbering must start afresh with every document
+	Recursion bool `json:"recursion,omitempty"`
 }
+
+var c16CyclicNames = sortedKeys(c07CyclicValues)
 
 var c16Kinds = []string{"cbe-marshaler", "cte-marshaler", "cbe-unmarshaler", "cte-unmarshaler", "cbe-decoder", "cte-decoder", "cbe-encoder", "cte-encoder", "rules"}
 
@@ -65,6 +70,7 @@ func (c *C16Case) config() *configuration.Configuration {
 	cfg := configuration.New()
 	cfg.Rules.MaxDocumentSizeBytes = uint64(c.MaxDoc)
 	cfg.Rules.MaxContainerDepth = uint64(c.MaxDepth)
+	cfg.Iterator.RecursionSupport = c.Recursion
 	cfg.Iterator.RecordTypes[reflect.TypeOf(C16Rec{})] = "rec"
 	cfg.Iterator.CustomBinaryConverters[reflect.TypeOf(C16Custom{})] = func(v reflect.Value) (uint64, []byte, error) {
 		x := v.Interface().(C16Custom)
@@ -95,12 +101,17 @@ func genC16(t *rapid.T, ctx *Ctx) interface{} {
 	if rapid.Bool().Draw(t, "hasfocus") {
 		focus = rapid.SampledFrom(c16Templates).Draw(t, "focus")
 	}
+	if strings.HasSuffix(c.Kind, "-marshaler") {
+		c.Recursion = rapid.IntRange(0, 2).Draw(t, "recursion") == 0
+	}
 	n := rapid.IntRange(2, 8).Draw(t, "nops")
 	for i := 0; i < n; i++ {
 		var op C16Op
 		switch c.Kind {
 		case "cbe-marshaler", "cte-marshaler":
-			if rapid.IntRange(0, 3).Draw(t, "special") == 0 {
+			if c.Recursion && rapid.IntRange(0, 1).Draw(t, "cyclic") == 0 {
+				op.Special = rapid.SampledFrom(c16CyclicNames).Draw(t, "cv")
+			} else if rapid.IntRange(0, 3).Draw(t, "special") == 0 {
 				if rapid.IntRange(0, 3).Draw(t, "registered") == 0 {
 					op.Special = rapid.SampledFrom(c16RegisteredNames).Draw(t, "rv")
 				} else {
@@ -363,6 +374,8 @@ func (in *c16Instance) apply(op *C16Op, first bool) (res c16Result) {
 	case in.m != nil:
 		var v interface{}
 		if f := c16RegisteredValues[op.Special]; f != nil {
+			v = f()
+		} else if f := c07CyclicValues[op.Special]; f != nil {
 			v = f()
 		} else if op.Special != "" {
 			v = c07Values[op.Special]()
